@@ -149,6 +149,53 @@ fn span_mode(s: &str, table: bool) -> Value {
     out
 }
 
+/// Replay a sequence of abstract stack operations (PegStack.tla) on the real mechanism of the runtime:
+/// snapshot .. clear / restore = one call of restore_on_none whose closure returns Some / None.
+fn stack_mode(ops: &Value) -> Value {
+    use pest_typed::predefined_node::restore_on_none;
+    use pest_typed::{Span, Stack};
+    static INPUT: &str = "ab";
+    let ops: Vec<(String, u64)> = ops.as_array().unwrap().iter().map(|o| (o[0].as_str().unwrap().to_string(), o[1].as_u64().unwrap_or(0))).collect();
+    // returns (next index, how the enclosing attempt ended: 1 = clear (Some), 0 = restore (None), 2 = sequence ended inside)
+    fn run<'i>(ops: &[(String, u64)], mut i: usize, stack: &mut Stack<Span<'i>>, input: &'i str) -> (usize, u8) {
+        while i < ops.len() {
+            match ops[i].0.as_str() {
+                "push" => {
+                    let v = ops[i].1 as usize;
+                    stack.push(Span::new(input, v - 1, v).unwrap());
+                    i += 1;
+                }
+                "pop" => {
+                    stack.pop();
+                    i += 1;
+                }
+                "snap" => {
+                    let mut next = i + 1;
+                    let mut end = 2u8;
+                    let _ = restore_on_none(stack, |stack| {
+                        let (j, how) = run(ops, i + 1, stack, input);
+                        next = j;
+                        end = how;
+                        if how == 0 { None } else { Some(()) }
+                    });
+                    i = next;
+                    if end == 2 {
+                        return (i, 2);
+                    }
+                }
+                "clear" => return (i + 1, 1),
+                "restore" => return (i + 1, 0),
+                _ => i += 1,
+            }
+        }
+        (i, 2)
+    }
+    let mut stack: Stack<Span<'static>> = Stack::new();
+    let _ = run(&ops, 0, &mut stack, INPUT);
+    let content: Vec<Value> = stack[0..stack.len()].iter().map(|s| json!(s.start() + 1)).collect();
+    json!({"content": content})
+}
+
 fn misc_push(out: &mut Value, v: Value) {
     out["misc"].as_array_mut().unwrap().push(v);
 }
@@ -170,6 +217,7 @@ fn main() {
             "pos" => pos_mode(&s),
             "span" => span_mode(&s, v["table"].as_bool().unwrap_or(false)),
             "disp" => display::disp_mode(&s),
+            "stack" => stack_mode(&v["ops"]),
             _ => json!({"unknown": true}),
         }))
         .unwrap_or(json!({"panic": true}));
